@@ -357,11 +357,12 @@ func tzContextLoc() (context.Context, *time.Location) {
 // values of the target type built from independently formatted text.
 func C17_CastValues() {
 	ctx, loc := tzContextLoc()
-	castValues(ctx, loc, "C17/cast-value")
+	castValues(ctx, loc, "C17/cast-value", digit)
 }
 
-// castValues: see C17_CastValues; tag prefixes the assertion labels.
-func castValues(ctx context.Context, loc *time.Location, tag string) {
+// castValues: see C17_CastValues; tag prefixes the assertion labels, digit
+// supplies the varying digit of the datetime strings.
+func castValues(ctx context.Context, loc *time.Location, tag string, digit func() string) {
 	opts := []exec.Option{exec.WithTZ()}
 	eq := func(method, a, e string) int {
 		return cmpOutcome(ctx, "$a."+method+"() == $b."+method+"()", a, e, opts)
@@ -376,8 +377,12 @@ func castValues(ctx context.Context, loc *time.Location, tag string) {
 		}
 		t, err := time.Parse(layout, src)
 		if err != nil {
-			nd.Assume(false)
+			// an offset such as -19:30: not a timestamptz for either side
+			nd.Cover(tag + "/ill-formed-offset")
+			nd.Assert(eq("timestamp_tz", src, src) != oT, tag+"/ill-formed-offset-accepted")
+			return
 		}
+		nd.Cover(tag + "/timestamptz-checked")
 		l := t.In(loc)
 		nd.Assert(eq("date", src, l.Format("2006-01-02")) == oT, tag+"/timestamptz.date/not-the-day-in-the-context-zone")
 		nd.Assert(eq("time", src, l.Format("15:04:05")) == oT, tag+"/timestamptz.time/not-the-time-of-day-in-the-context-zone")
@@ -386,8 +391,9 @@ func castValues(ctx context.Context, loc *time.Location, tag string) {
 		// date -> timestamptz: midnight of that day in the context zone
 		src := dtString(tDate, digit())
 		d, err := time.ParseInLocation("2006-01-02", src, loc)
+		nd.Assert(err == nil, tag+"/oracle-cannot-parse-its-own-date")
 		if err != nil {
-			nd.Assume(false)
+			return
 		}
 		nd.Assert(eq("timestamp_tz", src, d.Format("2006-01-02T15:04:05Z07:00")) == oT, tag+"/date.timestamp_tz/not-midnight-in-the-context-zone")
 		nd.Assert(eq("timestamp", src, d.Format("2006-01-02T15:04:05")) == oT, tag+"/date.timestamp/not-midnight")
@@ -399,8 +405,9 @@ func castValues(ctx context.Context, loc *time.Location, tag string) {
 			layout = "2006-01-02 15:04:05"
 		}
 		t, err := time.ParseInLocation(layout, src, loc)
+		nd.Assert(err == nil, tag+"/oracle-cannot-parse-its-own-timestamp")
 		if err != nil {
-			nd.Assume(false)
+			return
 		}
 		nd.Assert(eq("timestamp_tz", src, t.Format("2006-01-02T15:04:05Z07:00")) == oT, tag+"/timestamp.timestamp_tz/not-the-local-time-in-the-context-zone")
 		nd.Assert(eq("date", src, t.Format("2006-01-02")) == oT, tag+"/timestamp.date/not-the-date-part")
